@@ -956,5 +956,12 @@ func TestReplay(t *testing.T) {
 			return judgeCodecCase(c)
 		},
 		"generated": replayGenerated, // gen_test.go
+		"twotrees": func(raw json.RawMessage) error {
+			var c treesCase
+			if err := vt.Decode(raw, &c); err != nil {
+				return err
+			}
+			return judgeTrees(c)
+		},
 	})
 }
